@@ -160,6 +160,7 @@ type Sim struct {
 	// a call fails instead of being performed, at most OSMax times; every firing is logged.
 	OSRate int
 	OSMax  int
+	OSSkip int // eligible calls to let pass before the rate applies (directed scenarios)
 	OSLog  []OSFired
 }
 
@@ -179,6 +180,10 @@ var osErrnos = []syscall.Errno{syscall.EIO, syscall.ENOSPC, syscall.EACCES, sysc
 func OSFault(site int, name string) error {
 	s := S
 	if s == nil || s.OSRate <= 0 || len(s.OSLog) >= s.OSMax {
+		return nil
+	}
+	if s.OSSkip > 0 {
+		s.OSSkip--
 		return nil
 	}
 	if s.Choose(1000) >= s.OSRate {
